@@ -17,11 +17,14 @@ func init() {
 	verifRegister("VerifC19_KBuiltin", VerifC19_KBuiltin)
 	verifRegister("VerifC19_KUser", VerifC19_KUser)
 	verifRegister("VerifC19_KShadow", VerifC19_KShadow)
+	verifRegister("VerifC19_KKeyword", VerifC19_KKeyword)
 }
 
 var verifNames []string
 var verifPositional map[string]int
 var verifHasKey map[string]bool
+var verifKeys map[string][]string // &key parameter names
+var verifReq map[string]int      // required positional parameters
 
 func verifNewEnv() *lisp.LEnv {
 	env := lisp.NewEnv(nil)
@@ -38,8 +41,22 @@ func verifCollect() {
 	}
 	verifPositional = map[string]int{}
 	verifHasKey = map[string]bool{}
+	verifKeys = map[string][]string{}
+	verifReq = map[string]int{}
 	add := func(name string, formals *lisp.LVal) {
 		n := 0
+		req, mode := 0, ""
+		var keys []string
+		for _, c := range formals.Cells {
+			if c.Type == lisp.LSymbol && strings.HasPrefix(c.Str, "&") {
+				mode = c.Str
+			} else if c.Type == lisp.LSymbol && mode == "" {
+				req++
+			} else if c.Type == lisp.LSymbol && mode == "&key" {
+				keys = append(keys, c.Str)
+			}
+		}
+		verifKeys[name], verifReq[name] = keys, req
 		for _, c := range formals.Cells {
 			if c.Type == lisp.LSymbol && !strings.HasPrefix(c.Str, "&") {
 				n++
@@ -226,5 +243,43 @@ func VerifC19_KShadow() {
 	if reaches[fi] == 1 && bindFails {
 		vAssert(lint, "calls that still reach the builtin keep being checked")
 	}
+	vCover("end")
+}
+
+// keyword-parameter builtins called the way they are meant to be called: the required arguments,
+// then 0..all of their keyword parameters as :name value pairs (every subset, solver-chosen): the
+// call binds at run time, so no arity lint may report it.
+func VerifC19_KKeyword() {
+	verifCollect()
+	var names []string
+	for _, n := range verifNames {
+		if verifHasKey[n] && len(verifKeys[n]) > 0 {
+			names = append(names, n)
+		}
+	}
+	vAssert(len(names) > 0, "there are builtins with keyword parameters")
+	name := names[vConcInt(vndChoice("name", len(names)))]
+	var sb strings.Builder
+	sb.WriteString("(" + name)
+	for j := 0; j < verifReq[name]; j++ {
+		sb.WriteString(" \"0\"")
+	}
+	npairs := 0
+	for _, k := range verifKeys[name] {
+		if vndBool("use." + k) {
+			sb.WriteString(" :" + k + " \"v\"")
+			npairs++
+		}
+	}
+	sb.WriteString(")")
+	src := sb.String()
+	vObserve("src", src)
+	lint := verifArityDiags(src, false) > 0
+	lintSem := verifArityDiags(src, true) > 0
+	env := verifNewEnv()
+	v := env.LoadString("t.lisp", src)
+	bindFails := verifBindFails(v)
+	vAssert(!bindFails, "required arguments plus keyword pairs bind: "+v.String())
+	vAssert(!lint && !lintSem, "a call that binds is not reported by any arity check")
 	vCover("end")
 }
